@@ -1125,6 +1125,17 @@ static bool canResend(ssl_t *ssl)
         {
             canSend = 0;
         }
+        /* Nor is it safe while the client is midway through the server's
+           flight (waiting for CERTIFICATE, SERVER_KEY_EXCHANGE,
+           CERTIFICATE_REQUEST or SERVER_HELLO_DONE): the client has nothing
+           new to resend and sslEncodeResponse would take these for the
+           server-side states of the same name.  The server retransmits. */
+        if (ssl->hsState != SSL_HS_SERVER_HELLO &&
+            ssl->hsState != SSL_HS_FINISHED &&
+            ssl->hsState != SSL_HS_DONE)
+        {
+            canSend = 0;
+        }
 #endif
     }
     return canSend;
